@@ -11,12 +11,12 @@ Definition table_sound (lo hi : N) (reserved : list N) (existing : list N) (reqs
   (forall i, In i (fresh_ids reqs outs) ->                  (* new ids: inside the range, not reserved, free *)
      lo <= i /\ i <= hi /\ ~ In i reserved /\ ~ In i existing).
 
-Lemma engine_table_sound b lo count reserved existing reqs outs :
-  engine b true reqs existing (free_ids lo count reserved existing) = Ok outs ->
+Lemma engine_table_sound b rg lo count reserved existing reqs outs :
+  engine b true rg reqs existing (free_ids lo count reserved existing) = Ok outs ->
   table_sound lo (lo + count - 1) reserved existing reqs outs.
 Proof.
   intros H.
-  destruct (engine_sound b _ _ _ _ H (free_ids_nodup _ _ _ _)) as (F & N1 & N2 & N3 & N4).
+  destruct (engine_sound b rg _ _ _ _ H (free_ids_nodup _ _ _ _)) as (F & N1 & N2 & N3 & N4).
   { intros i Hi. apply free_ids_spec in Hi. tauto. }
   repeat split; try assumption.
   - apply N3 in H0. apply free_ids_spec in H0. lia.
@@ -28,20 +28,20 @@ Qed.
 Theorem add_locations_sound existing reqs outs :
   add_locations existing reqs = Ok outs ->
   table_sound 1 255 [64] existing (carried_first reqs) outs.
-Proof. intros H. apply (engine_table_sound true 1 MAX_LOCATIONS [ANYWHERE_LOCATION_ID]) in H. exact H. Qed.
+Proof. intros H. apply (engine_table_sound true (Some (1, MAX_LOCATIONS)) 1 MAX_LOCATIONS [ANYWHERE_LOCATION_ID]) in H. exact H. Qed.
 
 Theorem add_cuwp_slots_sound existing reqs outs :
   add_cuwp_slots existing reqs = Ok outs ->
   table_sound 1 64 [] existing (carried_first reqs) outs.
-Proof. intros H. apply (engine_table_sound false 1 MAX_CUWP_SLOTS []) in H. exact H. Qed.
+Proof. intros H. apply (engine_table_sound false None 1 MAX_CUWP_SLOTS []) in H. exact H. Qed.
 
 Theorem add_wav_files_sound existing reqs outs :
   add_wav_files existing reqs = Ok outs -> table_sound 0 511 [] existing reqs outs.
-Proof. intros H. apply (engine_table_sound false 0 MAX_WAV_FILES []) in H. exact H. Qed.
+Proof. intros H. apply (engine_table_sound false None 0 MAX_WAV_FILES []) in H. exact H. Qed.
 
 Theorem add_switches_sound existing reqs outs :
   add_switches existing reqs = Ok outs -> table_sound 0 255 [] existing reqs outs.
-Proof. intros H. apply (engine_table_sound false 0 MAX_SWITCHES []) in H. exact H. Qed.
+Proof. intros H. apply (engine_table_sound false None 0 MAX_SWITCHES []) in H. exact H. Qed.
 
 (* SWNM rebuild: ids handed to unnamed-index switches are in range, distinct, and never an index that
    some used switch carries *)
@@ -51,7 +51,7 @@ Theorem rebuild_swnm_sound reqs outs :
   forall i, In i (fresh_ids reqs outs) -> i <= 255 /\ ~ In i (carried_ids reqs).
 Proof.
   unfold rebuild_swnm. destruct (existsb _ _); [discriminate|]. intros H.
-  destruct (engine_fresh_sound false false _ _ _ _ H (free_ids_nodup _ _ _ _)) as [A B].
+  destruct (engine_fresh_sound false false None _ _ _ _ H (free_ids_nodup _ _ _ _)) as [A B].
   split; [assumption|]. intros i Hi. apply A in Hi. apply free_ids_spec in Hi.
   unfold MAX_SWITCHES in Hi. split; [lia | tauto].
 Qed.
@@ -78,12 +78,19 @@ Proof.
   induction reqs as [|r reqs IH]; simpl; [reflexivity|]. destruct r; simpl; lia.
 Qed.
 
+Lemma in_carried_first r reqs : In r (carried_first reqs) -> In r reqs.
+Proof. unfold carried_first. rewrite in_app_iff, !filter_In. tauto. Qed.
+
 Theorem full_table_never_blocks_a_noop existing reqs :
   count_fresh reqs = 0%nat ->
+  (forall k, In (RCarry k) reqs -> 1 <= k <= 255) ->      (* carried location indices inside the table *)
   (exists o, add_locations existing reqs = Ok o) /\ (exists o, add_cuwp_slots existing reqs = Ok o) /\
   (exists o, add_wav_files existing reqs = Ok o) /\ (exists o, add_switches existing reqs = Ok o).
 Proof.
-  intros H. repeat split; apply engine_no_fresh_ok; rewrite ?count_fresh_carried_first; assumption.
+  intros H Hr. repeat split; apply engine_no_fresh_ok; rewrite ?count_fresh_carried_first; try assumption;
+    try (intros; reflexivity).
+  intros k Hk. apply in_carried_first in Hk. specialize (Hr k Hk). unfold MAX_LOCATIONS.
+  apply orb_false_iff. split; apply N.ltb_ge; lia.
 Qed.
 
 (* MRGN does not raise when it runs out: the remaining locations are left unplaced (the save then raises
